@@ -6,7 +6,7 @@ from hypothesis import strategies as st
 from .. import strategies as S
 from .. import wire
 from ..engine import ok, require
-from ..simkit import (ADDRS, ClientRec, FakeTransport, ServerRec, Sessions, Sim, cfg, hdr, install_random, make_sd,
+from ..simkit import (ADDRS, ClientRec, FakeTransport, deep_state, ServerRec, Sessions, Sim, cfg, hdr, install_random, make_sd,
                       sd, sd_bytes, service, timings)
 from . import c01
 
@@ -291,13 +291,9 @@ def _play(case, with_junk):
                     require(False, "C03.receive-raises", f"{name} endpoint datagram_received raised {type(e).__name__}: {e}; datagram {bytes(data)[:80].hex()} (len {len(data)}) multicast={mc}")
 
         def state():
-            return (
-                sorted((a, sorted((repr(k), None if h is None else round(h.when(), 6)) for k, (cb, h) in v.items())) for a, v in prot.discovery.found_services.store.items() if v),
-                sorted((a, sorted((repr(k), None if h is None else round(h.when(), 6)) for k, (cb, h) in v.items())) for a, v in inst.subscriptions.store.items() if v),
-                sorted((repr(k), v) for k, v in prot.session_storage.incoming.items()),
-                sorted((repr(k), v) for k, v in prot.session_storage.outgoing.items()),
-                sorted(repr(x) for x in prot.subscriber.subscribeentries),
-            )
+            # everything reachable from the protocol object (discovery, subscription, session state, timer deadlines),
+            # whatever the library calls it
+            return repr(deep_state(prot))
 
         junk_at = {}
         for j in case["junk"]:
@@ -326,7 +322,7 @@ def _play(case, with_junk):
                     info["junk_delivered"] += 1
                     pure = not kept
                     before = (state(), len(log), len(sends)) if pure else None
-                    if any(prot.discovery.found_services.store.values()) or any(inst.subscriptions.store.values()):
+                    if log:
                         info["state_when_junk"] = True
                     sim.do_at(sim.now, deliver, data, a, j["mc"])
                     if pure:
@@ -350,7 +346,7 @@ def _play(case, with_junk):
                 kept, rej = classify(whole)
                 info["rejected"] += rej
                 info["junk_delivered"] += 1
-                if any(prot.discovery.found_services.store.values()) or any(inst.subscriptions.store.values()):
+                if log:
                     info["state_when_junk"] = True
                 data = whole if with_junk else b"".join(kept)
             if data:
